@@ -4,7 +4,6 @@ import (
 	"fmt"
 	"hash/crc64"
 	"os"
-	"os/exec"
 	"regexp"
 	"strings"
 )
@@ -57,7 +56,7 @@ func runRegistryModel(o *Options, res *Result, hists [][]regOp) error {
 	if err := os.WriteFile(file, []byte(sb.String()), 0o644); err != nil {
 		return err
 	}
-	out, err := exec.Command("timeout", "1200", "coqc", "-Q", o.CoqDir, "DT", "-Q", dir, "RCases", file).CombinedOutput()
+	out, err := coqcCmd("1200", "-Q", o.CoqDir, "DT", "-Q", dir, "RCases", file).CombinedOutput()
 	if err != nil {
 		return fmt.Errorf("coqc on %s: %v\n%s", file, err, tail(string(out), 1500))
 	}
